@@ -4,6 +4,6 @@ cd /verif && mkdir -p /tmp/seed-prompts
 for p in "$@"; do for v in A B; do
   echo "== $p-$v"
   bin/confirm_seed.sh /tmp/seed${R:-2}-$p/seed_out/$v /tmp/seed${R:-2}-$p 2>&1 | grep -a "seed:\|apply"
-  if grep -q "parser.go.y" /tmp/seed${R:-2}-$p/seed_out/$v/patch.diff; then T=bin/try_seed_y.sh; else T=bin/try_seed.sh; fi
+  if git -C /repo apply --check /tmp/seed${R:-2}-$p/seed_out/$v/patch.diff 2>/dev/null; then T=bin/try_seed.sh; else T=bin/try_seed_y.sh; fi
   $T /tmp/seed${R:-2}-$p/seed_out/$v/patch.diff $p 2>&1 | grep -a "failing input\|VIOLATION\|seed result\|OK prop" | cut -c1-260
 done; done
